@@ -163,7 +163,12 @@ static std::string project(TasmanianSparseGrid const &g){
     std::string s = "{";
     int fam = famOf(g);
     s += "\"fam\":" + jstr(famName(fam));
-    if (fam < 0) return s + "}";
+    if (fam < 0){
+        // an empty object carries nothing over from the grid it held before (C14: "either empty ... or exactly as before")
+        bool residue = false;
+        try{ residue = g.isSetDomainTransfrom() || g.isSetConformalTransformASIN() || !g.getLevelLimits().empty() || g.isUsingConstruction(); }catch(std::exception &){ residue = true; }
+        return s + ",\"residue\":" + jbool(residue) + "}";
+    }
     int d = g.getNumDimensions(), outs = g.getNumOutputs();
     int nl = g.getNumLoaded(), nn = g.getNumNeeded(), np = g.getNumPoints();
     s += ",\"rule\":" + jstr(IO::getRuleString(g.getRule()));
@@ -975,7 +980,7 @@ int main(int argc, char **argv){
     if (argc > 3) obs_mask = atoi(argv[3]);
     if (argc > 4) tmpdir = argv[4];
     std::string line;
-    int scen = 0, step = 0;
+    int scen = 0, step = 0, scen_key = 0;
     std::deque<std::string> pending;             // lines generated by macro commands (loadpool)
     bool skip_rest = false;
     int max_points = (getenv("VERIF_MAX_POINTS") != nullptr) ? atoi(getenv("VERIF_MAX_POINTS")) : 160;
@@ -989,6 +994,9 @@ int main(int argc, char **argv){
         if (cmd == "SCEN"){
             if (scen > 0) fprintf(out, "{\"e\":\"End\"}\n");
             std::string label; ls >> label; scen++; step = 0; skip_rest = false; pending.clear();
+            // probe points are seeded by the label, not by the position in the file: a scenario gives the same observations whether it
+            // runs in a full file, alone, or after a restart of the driver (serial and OpenMP runs are compared event by event)
+            { unsigned h = 2166136261u; for(char ch : label){ h ^= (unsigned char) ch; h *= 16777619u; } scen_key = (int) (h % 100003u); }
             tok_salt = 0; ls >> tok_salt; if (tok_salt < 0 || tok_salt > 95) tok_salt = 0;
             for(auto &s : slots){ s.g = TasmanianSparseGrid(); s.obase = 0; s.delivered.clear(); }
             fprintf(out, "{\"e\":\"Reset\",\"scen\":%s,\"salt\":%d}\n", jstr(label).c_str(), tok_salt);
@@ -1365,12 +1373,12 @@ int main(int argc, char **argv){
             // C09 judges the surrogate after the last delivery only: with VERIF_NODAL_AT_FINISH the nodal observation is not taken
             // while a construction is active (intermediate states belong to C01)
             if ((obs_mask & OBS_NODAL) && !(getenv("VERIF_NODAL_AT_FINISH") != nullptr && g.isUsingConstruction())) O(obs_nodal(g));
-            if (obs_mask & OBS_ROUTES) O(obs_routes(g, (unsigned) (scen * 131 + step)));
-            if (obs_mask & OBS_RT) O(obs_roundtrip(g, (unsigned) (scen * 137 + step)));
-            if (obs_mask & OBS_EXACT) O(obs_exact(g, (unsigned) (scen * 139 + step)));
-            if (obs_mask & OBS_GRAD) O(obs_grad(g, (unsigned) (scen * 149 + step)));
-            if (obs_mask & 64) O(obs_twin(g, (unsigned) (scen * 151 + step)));
-            if (obs_mask & 128) O(obs_num(g, (unsigned) (scen * 157 + step)));
+            if (obs_mask & OBS_ROUTES) O(obs_routes(g, (unsigned) (scen_key * 131 + step)));
+            if (obs_mask & OBS_RT) O(obs_roundtrip(g, (unsigned) (scen_key * 137 + step)));
+            if (obs_mask & OBS_EXACT) O(obs_exact(g, (unsigned) (scen_key * 139 + step)));
+            if (obs_mask & OBS_GRAD) O(obs_grad(g, (unsigned) (scen_key * 149 + step)));
+            if (obs_mask & 64) O(obs_twin(g, (unsigned) (scen_key * 151 + step)));
+            if (obs_mask & 128) O(obs_num(g, (unsigned) (scen_key * 157 + step)));
         }catch(std::exception &e){ O(std::string("\"observer_exception\":") + jstr(e.what())); }
         obs += "}";
         fprintf(out, "{\"e\":%s,\"o\":%d,\"a\":%s,\"r\":%s,\"st\":%s,\"st2\":%s,\"obs\":%s%s}\n", jstr(cmd).c_str(), o, args.c_str(), jstr(res).c_str(),
